@@ -770,8 +770,8 @@ fn run_shard(args: &Args, task: usize) {
     let nlarge = if thorough { 3 } else if task < 6 { 1 } else { 0 };
     for k in 0..nlarge {
         let mut rng = Rng::new(seed ^ 0x1A26E ^ ((task as u64) << 20) ^ ((k as u64) << 36));
-        let c = Case { q: *rng.pick(&[5, 9, 5, 9, 6, 7]), lgwin: rng.range(22, 24) as i32, large: false, favor: rng.chance(1, 2), catable: rng.chance(1, 4), appendable: rng.chance(1, 4), magic: rng.chance(1, 4),
-            t: rng.range(2, 3) as usize, n: rng.range(2 << 20, 3 << 20) as usize, kind: 5, dseed: rng.next(), size_hint: 0 };
+        let c = Case { q: *rng.pick(&[5, 9, 5, 4, 6, 7]), lgwin: rng.range(22, 24) as i32, large: false, favor: rng.chance(1, 2), catable: rng.chance(1, 4), appendable: rng.chance(1, 4), magic: rng.chance(1, 4),
+            t: rng.range(2, 3) as usize, n: rng.range((2 << 20) + 4096, 3 << 20) as usize, kind: 5, dseed: rng.next(), size_hint: 0 };
         large_case(&c, &mut rep, &mut pool_l);
     }
     // ---- "mid prefix, fast hashers" class: 100-400 KiB of static-dictionary text at quality 2-4
@@ -894,6 +894,18 @@ fn large_case(c: &Case, rep: &mut Report, pool: &mut Pool) {
     }
     if runs.iter().all(|o| o.class != "panic") && !(runs[0].class == runs[1].class && runs[0].bytes == runs[1].bytes && runs[1].class == runs[2].class && runs[1].bytes == runs[2].bytes) {
         rep.violation("multi:spawner-differs", "thread-per-job / inline / reused pool disagree on a large input", c.json(""));
+    }
+    // favor_cpu_efficiency on vs off (C06) on the same large input: the shared pre-built index must be
+    // the index each job would build itself also when a job's prefix is MiBs long (hasher choice
+    // thresholds on the size hint / prefix length lie at 1 MiB and 4 MiB)
+    if !c.truncated() && c.t > 1 {
+        let mut p2 = params.clone(); p2.favor_cpu_efficiency = !c.favor;
+        let other = run_multi(Spawner::Inline, &p2, &input, c.t, bound, None);
+        beat();
+        rep.count("large_prefix.compared.favor");
+        if other.class != "panic" && runs[1].class != "panic" && !(other.class == runs[1].class && other.bytes == runs[1].bytes) {
+            rep.violation("multi:favor-differs:large-prefix", &format!("favor_cpu_efficiency on/off give different results on a large input ({} {} bytes vs {} {} bytes)", runs[1].class, runs[1].bytes.len(), other.class, other.bytes.len()), c.json(""));
+        }
     }
 }
 
